@@ -148,8 +148,81 @@ def std_adapter_rule(chk, P, prefix):
             if not (recv[0] == "param" and recv[1] in (1, 2)):
                 return False, "%s::%s applies %s to %s, not to its own file / path" % (ty, meth, need[0], mir.o_str(recv)), [], key.loc
             ev.append("%s::%s -> %s" % (ty.rsplit("::", 1)[-1], meth, "+".join(need)))
+        # nothing else of io::Write is overridden in a way that weakens it: any further method defined on the adapter (write_all,
+        # write_vectored, ...) forwards to the same-named std method of the wrapped file - the provided write_all is what turns a short write
+        # into either the whole buffer or an error
+        table = {(tr, ty, m) for tr, ty, m, _, _ in TABLE}
+        for i in P.impls:
+            if (i.get("self_ty") or "") != "emit_file::StdFile" or i.get("trait") not in ("std::io::Write", "emit_file::File"):
+                continue
+            for it in i.get("items", ()):
+                if it.get("kind") != "Fn" or (i["trait"], "emit_file::StdFile", it["name"]) in table:
+                    continue
+                b2 = P.bodies.get(it["key"])
+                if b2 is None:
+                    continue
+                ok2 = common.forward_check(b2, check_return=True)
+                if not ok2[0]:
+                    return False, ("`impl %s for StdFile` defines `%s`, which does not forward to the wrapped file's own `%s`: %s" %
+                                   (i["trait"].rsplit("::", 1)[-1], it["name"], it["name"],
+                                    "a single write() that reports Ok for a short write acknowledges a truncated event" if it["name"] == "write_all" else ok2[1])), [], b2.span
+                ev.append("StdFile::%s forwards" % it["name"])
         return True, "", ev
     chk.ob("%s:std-adapters" % prefix, "the std::fs adapters perform the like-named std operation on their own file / path", f)
+
+
+def write_event_rule(chk, P, key):
+    def r4():
+        b = P.body("emit_file::ActiveFile::write_event")
+        wa = [c for c in b.calls(normal_only=True) if c.callee.get("trait") == "std::io::Write"]
+        bare = [c for c in wa if c.callee.get("name") in ("write", "write_vectored")]
+        if bare:
+            return False, ("write_event uses Write::%s at %s: a short (partial) write is reported as success and is not "
+                           "continued, so a record can be truncated and run into the next one" % (bare[0].callee["name"], bare[0].loc)), [], bare[0].loc
+        was = [c for c in wa if c.callee.get("name") == "write_all"]
+        if len(was) != 2:
+            return False, "expected write_all for the recovery separator and for the event, found %d" % len(was), [], b.span
+        sep = [c for c in was if mir.o_is_param(b.origin(c.args[1]), idx=3)]
+        evt = [c for c in was if mir.o_is_param(b.origin(c.args[1]), idx=2)]
+        if len(sep) != 1 or len(evt) != 1:
+            return False, "write_all arguments are not (separator) and (event_buf)", [], b.span
+        s, e = sep[0], evt[0]
+        # separator under the flag
+        g = [(b.switch_origin(gbb), list(vals)) for gbb, vals, n in b.guards_of(s.bb)]
+        def flag_set(so, vals):
+            base, pos = mir.norm_bool(so)
+            return mir.o_field_path(base)[1] == ["file_needs_recovery"] and ((vals != ["0"]) == pos)
+        if not any(flag_set(so, vals) for so, vals in g):
+            return False, "the recovery separator is not written exactly when file_needs_recovery is set", [], s.loc
+        if not b.dominates(s.bb, e.bb) and not any(True for _ in [0]):
+            pass
+        # flag writes
+        sets = []
+        for bb, j, st in b.statements(normal_only=True):
+            if st["k"] == "assign" and "p" in st["place"] and [p.get("n") for p in st["place"]["p"] if isinstance(p, dict) and "f" in p] == ["file_needs_recovery"]:
+                v = mir.o_const_value(b.origin(st["rv"]["op"])) if st["rv"]["k"] == "use" else None
+                sets.append((bb, j, v, st))
+        trues = [x for x in sets if x[2] is True]
+        falses = [x for x in sets if x[2] is False]
+        if len(trues) != 1 or len(falses) != 1:
+            return False, "expected file_needs_recovery = true before and = false after the event write (found %d/%d)" % (len(trues), len(falses)), [], b.span
+        tb, fb = trues[0][0], falses[0][0]
+        if not (cb_dom(b, tb, e.bb)):
+            return False, "file_needs_recovery is not set before the event is written: a failed write would leave a truncated record without a recovery separator", [], e.loc
+        if not _q_success_guard(b, fb, e.bb):
+            return False, "file_needs_recovery is cleared although the event write may have failed", [], "%s:%s" % (b.file, falses[0][3].get("line"))
+        # recovery separator write failing must not clear the flag either
+        if not _q_success_guard(b, e.bb, s.bb) and not all(True for _ in [0]):
+            pass
+        # both on self.file
+        for c in was:
+            if mir.o_field_path(b.origin(c.args[0], through_calls=("deref_mut", "deref", "as_mut")))[1] != ["file"]:
+                return False, "write_all on %s" % o_str(b.origin(c.args[0])), [], c.loc
+        return True, "", [s.loc, e.loc]
+
+    def cb_dom(b, a_bb, b_bb):
+        return b.dominates(a_bb, b_bb)
+    chk.ob(key, "recovery separator under the flag; flag set before and cleared only after a successful write_all of the event", r4)
 
 
 def sync_before_ok(P):
@@ -254,57 +327,7 @@ def run(chk):
         return True, "", [w.loc, a.loc, inloop[0].loc]
     chk.ob("C10.R3:remainder", "the cursor advances only after a successful write; a failed write returns the batch with the failed event still first", r3)
 
-    def r4():
-        b = P.body("emit_file::ActiveFile::write_event")
-        wa = [c for c in b.calls(normal_only=True) if c.callee.get("trait") == "std::io::Write"]
-        bare = [c for c in wa if c.callee.get("name") in ("write", "write_vectored")]
-        if bare:
-            return False, ("write_event uses Write::%s at %s: a short (partial) write is reported as success and is not "
-                           "continued, so a record can be truncated and run into the next one" % (bare[0].callee["name"], bare[0].loc)), [], bare[0].loc
-        was = [c for c in wa if c.callee.get("name") == "write_all"]
-        if len(was) != 2:
-            return False, "expected write_all for the recovery separator and for the event, found %d" % len(was), [], b.span
-        sep = [c for c in was if mir.o_is_param(b.origin(c.args[1]), idx=3)]
-        evt = [c for c in was if mir.o_is_param(b.origin(c.args[1]), idx=2)]
-        if len(sep) != 1 or len(evt) != 1:
-            return False, "write_all arguments are not (separator) and (event_buf)", [], b.span
-        s, e = sep[0], evt[0]
-        # separator under the flag
-        g = [(b.switch_origin(gbb), list(vals)) for gbb, vals, n in b.guards_of(s.bb)]
-        def flag_set(so, vals):
-            base, pos = mir.norm_bool(so)
-            return mir.o_field_path(base)[1] == ["file_needs_recovery"] and ((vals != ["0"]) == pos)
-        if not any(flag_set(so, vals) for so, vals in g):
-            return False, "the recovery separator is not written exactly when file_needs_recovery is set", [], s.loc
-        if not b.dominates(s.bb, e.bb) and not any(True for _ in [0]):
-            pass
-        # flag writes
-        sets = []
-        for bb, j, st in b.statements(normal_only=True):
-            if st["k"] == "assign" and "p" in st["place"] and [p.get("n") for p in st["place"]["p"] if isinstance(p, dict) and "f" in p] == ["file_needs_recovery"]:
-                v = mir.o_const_value(b.origin(st["rv"]["op"])) if st["rv"]["k"] == "use" else None
-                sets.append((bb, j, v, st))
-        trues = [x for x in sets if x[2] is True]
-        falses = [x for x in sets if x[2] is False]
-        if len(trues) != 1 or len(falses) != 1:
-            return False, "expected file_needs_recovery = true before and = false after the event write (found %d/%d)" % (len(trues), len(falses)), [], b.span
-        tb, fb = trues[0][0], falses[0][0]
-        if not (cb_dom(b, tb, e.bb)):
-            return False, "file_needs_recovery is not set before the event is written: a failed write would leave a truncated record without a recovery separator", [], e.loc
-        if not _q_success_guard(b, fb, e.bb):
-            return False, "file_needs_recovery is cleared although the event write may have failed", [], "%s:%s" % (b.file, falses[0][3].get("line"))
-        # recovery separator write failing must not clear the flag either
-        if not _q_success_guard(b, e.bb, s.bb) and not all(True for _ in [0]):
-            pass
-        # both on self.file
-        for c in was:
-            if mir.o_field_path(b.origin(c.args[0], through_calls=("deref_mut", "deref", "as_mut")))[1] != ["file"]:
-                return False, "write_all on %s" % o_str(b.origin(c.args[0])), [], c.loc
-        return True, "", [s.loc, e.loc]
-
-    def cb_dom(b, a_bb, b_bb):
-        return b.dominates(a_bb, b_bb)
-    chk.ob("C10.R4:write_event", "recovery separator under the flag; flag set before and cleared only after a successful write_all of the event", r4)
+    write_event_rule(chk, P, "C10.R4:write_event")
 
     def ctor_flag(fn, want):
         def f():
